@@ -99,12 +99,20 @@ pub trait Visitor<'de>: Sized {
     spec fn map_start_ok(&self, s: Seq<u8>, idx: int) -> bool;
     // the access object is a fresh one (first == true) on the deserializer positioned just after the bracket; whatever
     // the visitor does with it, the parser invariant and the document are preserved (prophetic: state when it returns)
+    /// a visitor is a deterministic program: what visit_seq / visit_map return when started on a fresh access object
+    /// just after the bracket at idx of the document s, and where they leave the reader
+    spec fn seq_out(&self, s: Seq<u8>, idx: int) -> (Result<Self::Value>, int);
+    spec fn map_out(&self, s: Seq<u8>, idx: int) -> (Result<Self::Value>, int);
     fn visit_seq<'a, R: Reader<'de>>(self, seq: SeqAccess<'a, R>) -> (r: Result<Self::Value>)
         requires seq.de.parser.pinv(), seq.first, self.seq_start_ok(seq.de.parser.read.data(), seq.de.parser.read.idx() as int),
-        ensures mut_ref_future(seq.de).parser.pinv(), mut_ref_future(seq.de).parser.same_doc(&mut_ref_current(seq.de).parser);
+        ensures mut_ref_future(seq.de).parser.pinv(), mut_ref_future(seq.de).parser.same_doc(&mut_ref_current(seq.de).parser),
+            r == self.seq_out(mut_ref_current(seq.de).parser.read.data(), mut_ref_current(seq.de).parser.read.idx() as int).0,
+            mut_ref_future(seq.de).parser.read.idx() == self.seq_out(mut_ref_current(seq.de).parser.read.data(), mut_ref_current(seq.de).parser.read.idx() as int).1;
     fn visit_map<'a, R: Reader<'de>>(self, map: MapAccess<'a, R>) -> (r: Result<Self::Value>)
         requires map.de.parser.pinv(), map.first, self.map_start_ok(map.de.parser.read.data(), map.de.parser.read.idx() as int),
-        ensures mut_ref_future(map.de).parser.pinv(), mut_ref_future(map.de).parser.same_doc(&mut_ref_current(map.de).parser);
+        ensures mut_ref_future(map.de).parser.pinv(), mut_ref_future(map.de).parser.same_doc(&mut_ref_current(map.de).parser),
+            r == self.map_out(mut_ref_current(map.de).parser.read.data(), mut_ref_current(map.de).parser.read.idx() as int).0,
+            mut_ref_future(map.de).parser.read.idx() == self.map_out(mut_ref_current(map.de).parser.read.data(), mut_ref_current(map.de).parser.read.idx() as int).1;
     /// what visit_enum requires of the position it is started at: just after `{` (externally tagged), or at the opening
     /// quote of a bare variant name
     spec fn enum_start_ok(&self, s: Seq<u8>, idx: int, tagged: bool) -> bool;
@@ -164,6 +172,21 @@ pub open spec fn str_call<'de, V: Visitor<'de>>(visitor: V, res: Result<V::Value
     res == visitor.on_str(text, no_escape) || (lossy && res == visitor.on_str(text, false))
 }
 
+/// the array encoding started at `[` (position p): the visitor's own result, provided the closing bracket follows
+/// (after whitespace) what it consumed — nothing else can make it fail, nothing else can make it succeed
+pub open spec fn seq_form<'de, V: Visitor<'de>>(visitor: V, s: Seq<u8>, p: int, res: Result<V::Value>, e: int) -> bool {
+    let o = visitor.seq_out(s, p + 1);
+    let c = ws_end(s, o.1);
+    &&& (res.is_ok() <==> o.0.is_ok() && c < s.len() && s[c] == 0x5d)
+    &&& (res.is_ok() ==> res == o.0 && e == c + 1)
+}
+pub open spec fn map_form<'de, V: Visitor<'de>>(visitor: V, s: Seq<u8>, p: int, res: Result<V::Value>, e: int) -> bool {
+    let o = visitor.map_out(s, p + 1);
+    let c = ws_end(s, o.1);
+    &&& (res.is_ok() <==> o.0.is_ok() && c < s.len() && s[c] == 0x7d)
+    &&& (res.is_ok() ==> res == o.0 && e == c + 1)
+}
+
 //@extract file=src/serde/de.rs fn=visit_number
 //@subst /V: de::Visitor<'de>,/ => V: Visitor<'de>,
 //@sig
@@ -209,6 +232,12 @@ impl<'de, R: Reader<'de>> Deserializer<R> {
             res.is_ok() ==> old(self).parser.read.data()[ws_end(old(self).parser.read.data(), old(self).parser.read.idx() as int)] == 0x5b,
             res.is_ok() ==> final(self).parser.read.idx() >= 1,
             res.is_ok() ==> old(self).parser.read.data()[final(self).parser.read.idx() - 1] == 0x5d,
+            // complete: at a `[` the outcome is exactly the visitor's, given the closing bracket
+            ({
+                let s = old(self).parser.read.data();
+                let p = ws_end(s, old(self).parser.read.idx() as int);
+                p < s.len() && s[p] == 0x5b ==> seq_form(visitor, s, p, res, final(self).parser.read.idx() as int)
+            }),
 //@body
         proof { lemma_ws_end_bounds(self.parser.read.data(), self.parser.read.idx() as int); }
 //@before /match \(ret, self\.end_seq\(\)\) \{/
@@ -231,7 +260,9 @@ impl<'de, R: Reader<'de>> Deserializer<R> {
             ({
                 let s = old(self).parser.read.data();
                 let p = ws_end(s, old(self).parser.read.idx() as int);
-                res.is_ok() ==> p < s.len() && s[p] == 0x7b && final(self).parser.read.idx() >= 1 && s[final(self).parser.read.idx() - 1] == 0x7d
+                &&& (res.is_ok() ==> p < s.len() && s[p] == 0x7b && final(self).parser.read.idx() >= 1 && s[final(self).parser.read.idx() - 1] == 0x7d)
+                // complete: at a `{` the outcome is exactly the visitor's, given the closing brace
+                &&& (p < s.len() && s[p] == 0x7b ==> map_form(visitor, s, p, res, final(self).parser.read.idx() as int))
             }),
 //@body
         proof { lemma_ws_end_bounds(self.parser.read.data(), self.parser.read.idx() as int); }
@@ -261,6 +292,13 @@ impl<'de, R: Reader<'de>> Deserializer<R> {
                 let s = old(self).parser.read.data();
                 let p = ws_end(s, old(self).parser.read.idx() as int);
                 (s[p] == 0x7b && s[final(self).parser.read.idx() - 1] == 0x7d) || (s[p] == 0x5b && s[final(self).parser.read.idx() - 1] == 0x5d)
+            }),
+            // complete, for BOTH encodings serde_json accepts: object form and array form
+            ({
+                let s = old(self).parser.read.data();
+                let p = ws_end(s, old(self).parser.read.idx() as int);
+                &&& (p < s.len() && s[p] == 0x7b ==> map_form(visitor, s, p, res, final(self).parser.read.idx() as int))
+                &&& (p < s.len() && s[p] == 0x5b ==> seq_form(visitor, s, p, res, final(self).parser.read.idx() as int))
             }),
 //@body
         proof { lemma_ws_end_bounds(self.parser.read.data(), self.parser.read.idx() as int); }
@@ -433,6 +471,52 @@ impl<'de, R: Reader<'de>> Deserializer<R> {
             res.is_ok() ==> value_end(old(self).parser.read.data(), old(self).parser.read.idx() as int) == Some(final(self).parser.read.idx() as int)
                 && res == visitor.on_unit(),
             value_end(old(self).parser.read.data(), old(self).parser.read.idx() as int).is_none() ==> res.is_err(),
+//@end
+}
+
+// ---- the content side of an externally tagged variant `{"Variant": content}`: tuple / struct variants read their content
+// with the sequence / struct entry points (a struct variant in BOTH encodings, as serde_json)
+impl<'de, 'a, R: Reader<'de> + 'a> VariantAccess<'a, R> {
+    #[verifier::prophetic]
+    pub open spec fn fut(&self) -> Deserializer<R> { mut_ref_future(self.de) }
+    pub open spec fn cur(&self) -> Deserializer<R> { *self.de }
+//@extract file=src/serde/de.rs impl="de::VariantAccess<'de> for VariantAccess<'a, R>" fn=tuple_variant
+//@subst /de::Deserializer::(\w+)\(self\.de, / => self.de.\1(
+//@subst /V: de::Visitor<'de>,/ => V: Visitor<'de>,
+//@sig
+        requires self.cur().parser.pinv(),
+            ({
+                let s = self.cur().parser.read.data();
+                let p = ws_end(s, self.cur().parser.read.idx() as int);
+                p < s.len() && s[p] == 0x5b ==> visitor.seq_start_ok(s, p + 1)
+            }),
+        ensures self.fut().parser.pinv(), self.fut().parser.same_doc(&self.cur().parser),
+            ({
+                let s = self.cur().parser.read.data();
+                let p = ws_end(s, self.cur().parser.read.idx() as int);
+                &&& (res.is_ok() ==> p < s.len() && s[p] == 0x5b)
+                &&& (p < s.len() && s[p] == 0x5b ==> seq_form(visitor, s, p, res, self.fut().parser.read.idx() as int))
+            }),
+//@end
+//@extract file=src/serde/de.rs impl="de::VariantAccess<'de> for VariantAccess<'a, R>" fn=struct_variant
+//@subst /de::Deserializer::(\w+)\(self\.de, / => self.de.\1(
+//@subst /V: de::Visitor<'de>,/ => V: Visitor<'de>,
+//@sig
+        requires self.cur().parser.pinv(),
+            ({
+                let s = self.cur().parser.read.data();
+                let p = ws_end(s, self.cur().parser.read.idx() as int);
+                &&& (p < s.len() && s[p] == 0x7b ==> visitor.map_start_ok(s, p + 1))
+                &&& (p < s.len() && s[p] == 0x5b ==> visitor.seq_start_ok(s, p + 1))
+            }),
+        ensures self.fut().parser.pinv(), self.fut().parser.same_doc(&self.cur().parser),
+            ({
+                let s = self.cur().parser.read.data();
+                let p = ws_end(s, self.cur().parser.read.idx() as int);
+                &&& (res.is_ok() ==> p < s.len() && (s[p] == 0x7b || s[p] == 0x5b))
+                &&& (p < s.len() && s[p] == 0x7b ==> map_form(visitor, s, p, res, self.fut().parser.read.idx() as int))
+                &&& (p < s.len() && s[p] == 0x5b ==> seq_form(visitor, s, p, res, self.fut().parser.read.idx() as int))
+            }),
 //@end
 }
 
